@@ -20,6 +20,7 @@ DOT = z3.Function('DOT', V, V, R)
 MATV = z3.Function('MATV', V, V, V)                    # H.dot(s)
 FINV = z3.Function('ALLFINITE', V, z3.BoolSort())          # np.all(np.isfinite(v)): every entry of v is finite
 NONANV = z3.Function('NONAN', V, z3.BoolSort())           # not np.any(np.isnan(v))
+TRLIN = z3.Function('TRLIN', V, V, V, R, V)                 # trsbox_linear(g, a, b, Delta): a deterministic function of its arguments
 MVF = z3.Function('MVF', V, V, V, V, R)                # util.model_value(g, H, s, xopt, h, ...) as a function of its vector arguments
 
 
@@ -192,6 +193,11 @@ class VecDomain(ParamsMixin, Domain):
     def augassign(self, op, cur, inc, st, node):
         return self.binop(op, cur, inc, st, node)
 
+    def unop(self, op, v, st):
+        if op == '-' and self.isv(v):
+            return vscale_r(z3.RealVal(-1), v)
+        return Domain.unop(self, op, v, st)
+
     def compare(self, op, a, b, st, node=None):
         if isinstance(a, InfOr) or isinstance(b, InfOr):
             x, y = as_infor(a), as_infor(b)
@@ -301,7 +307,7 @@ class VecDomain(ParamsMixin, Domain):
         return UNK
 
     def spec_call(self, eng, name, e, st):
-        fs = {'DOT': DOT, 'ALLFINITE': FINV, 'MVF': MVF, 'HU': HUf, 'RSV': RSV, 'norm': norm_f, 'vsub': vsub_f, 'vadd': vadd_f, 'PROJ': lambda l, i, w: PROJ(l.tok if isinstance(l, PListV) else l, i, w),
+        fs = {'TRLIN': TRLIN, 'vscaler': lambda t, v: vscale_r(to_real(t), v), 'DOT': DOT, 'ALLFINITE': FINV, 'MVF': MVF, 'HU': HUf, 'RSV': RSV, 'norm': norm_f, 'vsub': vsub_f, 'vadd': vadd_f, 'PROJ': lambda l, i, w: PROJ(l.tok if isinstance(l, PListV) else l, i, w),
               'INC': lambda l, i, w: INC(l.tok if isinstance(l, PListV) else l, i, w)}
         if name in fs:
             args = [eng.ev(a, st) for a in e.args]
